@@ -230,6 +230,12 @@ func (A *Analysis) cond1(v ssa.Value, pc pathCtx) *F {
 		switch t := x.Tuple.(type) {
 		case *ssa.Lookup:
 			if t.CommaOk && x.Index == 1 {
+				if _, present, folded := A.Sym.FoldLookup(t); folded {
+					if present {
+						return True
+					}
+					return False
+				}
 				return A.structAtom(A.keyAtom("mapok("+A.Sym.Of(t.X)+","+A.Sym.Of(t.Index)+")", t.X, t.Index), "mapok", t.X, t.Index)
 			}
 		case *ssa.TypeAssert:
@@ -255,7 +261,19 @@ func (A *Analysis) binop(x *ssa.BinOp, pc pathCtx) *F {
 	mk := func(l, op, r string) *F { return A.keyAtom("("+l+" "+op+" "+r+")", a, b) }
 	_, aConst := a.(*ssa.Const)
 	_, bConst := b.(*ssa.Const)
+	// a value folded to a constant (bound parameter, lookup in a constant table) orders like a constant
+	quoted := func(s string) bool { return len(s) >= 2 && s[0] == '"' && s[len(s)-1] == '"' }
+	aConst = aConst || quoted(sa)
+	bConst = bConst || quoted(sb)
+	quotedSym := func(s string) bool { return len(s) >= 2 && s[0] == '"' && s[len(s)-1] == '"' }
 	eq := func() *F {
+		// both sides folded to constants (bound parameter, lookup in a constant table)
+		if quotedSym(sa) && quotedSym(sb) {
+			if sa == sb {
+				return True
+			}
+			return False
+		}
 		// parameter bound to a constant string (per-element specialisation)
 		if ka, oka := A.constStr(a); oka {
 			if kb, okb := A.constStr(b); okb {
